@@ -33,7 +33,15 @@ impl core::str::FromStr for IpAddr {
 }
 // str::parse::<F>() is F::from_str (std: `FromStr::from_str(self)`)
 pub assume_specification<F: core::str::FromStr> [str::parse::<F>] (s: &str) -> (r: core::result::Result<F, F::Err>)
+    requires parse_pre::<F>(s@),
     ensures call_ensures(F::from_str, (s,), r);
+// Precondition of `s.parse::<F>()` in this model (Verus does not let an impl of the external trait FromStr declare a
+// `requires`, so it sits on `str::parse`, the only way turmoil reaches from_str): per target type, fixed by the axioms
+// below -- no condition for IpAddr (std's IpAddr / Ipv6Addr parsers reject zone ids) and u16, `sock_text_unscoped` for
+// SocketAddr.
+pub uninterp spec fn parse_pre<F>(s: Seq<char>) -> bool;
+pub broadcast axiom fn axiom_parse_pre_ip(s: Seq<char>) ensures #[trigger] parse_pre::<IpAddr>(s);
+pub broadcast axiom fn axiom_parse_pre_u16(s: Seq<char>) ensures #[trigger] parse_pre::<u16>(s);
 
 // ---- Entry::or_insert_with(|| G.next()) (R11 idiom) -------------------------------------------------------------
 // Verus rejects a closure that captures a `&mut` (here the address generator).  The idiom stub takes the generator
@@ -124,10 +132,10 @@ impl From<(Ipv6Addr, u16)> for SocketAddr {
     fn from(p: (Ipv6Addr, u16)) -> (r: SocketAddr) ensures r.ip_ == IpAddr::V6(p.0), r.port_ == p.1 { SocketAddr { ip_: IpAddr::V6(p.0), port_: p.1 } }
 }
 // In net.rs's flat (ip, port) model the enum constructors `SocketAddr::V4(a)` / `SocketAddr::V6(a)` are functions
-// (SocketAddrV4/V6 come from nettcp_sockaddr.rs; flowinfo / scope id are not modelled anywhere).
+// (SocketAddrV4/V6 come from nettcp_sockaddr.rs; flowinfo / scope id are not modelled: V6 requires them to be 0, `v6_plain`).
 impl SocketAddr {
     pub fn V4(a: SocketAddrV4) -> (r: SocketAddr) ensures r.ip_ == IpAddr::V4(a.ip_), r.port_ == a.port_ { SocketAddr { ip_: IpAddr::V4(a.ip_), port_: a.port_ } }
-    pub fn V6(a: SocketAddrV6) -> (r: SocketAddr) ensures r.ip_ == IpAddr::V6(a.ip_), r.port_ == a.port_ { SocketAddr { ip_: IpAddr::V6(a.ip_), port_: a.port_ } }
+    pub fn V6(a: SocketAddrV6) -> (r: SocketAddr) requires v6_plain(a), ensures r.ip_ == IpAddr::V6(a.ip_), r.port_ == a.port_ { SocketAddr { ip_: IpAddr::V6(a.ip_), port_: a.port_ } }
 }
 // `format!(..)` (R11 idiom): the text of an error message is not modelled
 #[verifier::external_body]
@@ -135,13 +143,23 @@ pub fn idiom_format_msg() -> (s: String) { unimplemented!() }
 
 // ---- pieces of `impl ToSocketAddrs for str` ("host:port" texts) ------------------------------------------------
 pub uninterp spec fn parse_sock_spec(s: Seq<char>) -> Option<SocketAddr>;
+// net.rs models SocketAddr as (ip, port) with structural `==`.  A real SocketAddr::V6 also carries flowinfo and a scope
+// (zone) id, and `"[::ae%2]:10982".parse::<SocketAddr>()` is Ok, keeps scope id 2 and is != the parse of "[::ae]:10982"
+// (found by stubcheck).  The model is exact only for texts without a zone id: stated as a precondition.
+// sock_text_unscoped(s): the text carries no IPv6 zone id `%...`.
+pub uninterp spec fn sock_text_unscoped(s: Seq<char>) -> bool;
+// v6_plain(a): the real SocketAddrV6 behind `a` has flowinfo == 0 && scope_id == 0 (nettcp_sockaddr.rs's stub has no such
+// fields, so this cannot be read off the model value).
+pub uninterp spec fn v6_plain(a: SocketAddrV6) -> bool;
 impl core::str::FromStr for SocketAddr {
     type Err = AddrParseError;
     #[verifier::external_body]
     fn from_str(s: &str) -> (r: core::result::Result<SocketAddr, AddrParseError>)
-        ensures match r { Ok(a) => parse_sock_spec(s@) == Some(a), Err(_) => parse_sock_spec(s@).is_none() }
+        ensures sock_text_unscoped(s@) ==> match r { Ok(a) => parse_sock_spec(s@) == Some(a), Err(_) => parse_sock_spec(s@).is_none() }
     { unimplemented!() }
 }
+pub broadcast axiom fn axiom_parse_pre_sock(s: Seq<char>) ensures #[trigger] parse_pre::<SocketAddr>(s) == sock_text_unscoped(s);
+// @broadcast axiom_parse_pre_ip, axiom_parse_pre_u16, axiom_parse_pre_sock
 // str::rsplit_once(':') : split at the LAST ':' (std docs); which index that is, is all that is modelled
 pub open spec fn last_colon(s: Seq<char>) -> Option<int> {
     if exists|i: int| 0 <= i < s.len() && s[i] == ':' && (forall|j: int| i < j < s.len() ==> s[j] != ':') {
